@@ -390,9 +390,10 @@ def problems(env, cfg, tier):
                 v = s2.action_mask == mask_fn2
             out["C07." + kk] = last | v
         out.update(K.spec_bounds(obs_spec, o, "C01.step_obs_bounds"))
-        # DiscreteArray(time_limit): with the symbolic limit T the declared range is 0 <= step_count < T
-        out["C01.step_obs_bounds.step_count"] = (o.step_count >= 0) & (o.step_count < T)
-        out["C01.step_obs_bounds.declared_step_count_range_covers_the_counter_it_documents"] = (s2.step_count >= 0) & (s2.step_count < T)
+        # the declared range, read from the REAL observation_spec as a function of the symbolic limit T
+        lo_, hi_ = K.declared_time_bounds(env, "step_count", T)
+        out["C01.step_obs_bounds.step_count"] = (o.step_count >= lo_) & (o.step_count <= hi_)
+        out["C01.step_obs_bounds.declared_step_count_range_covers_the_counter_it_documents"] = (s2.step_count >= lo_) & (s2.step_count <= hi_)
         return out
 
     step = dict(title=f"Tetris.step@{cfg}", args=(T0, state, a), requires=req, ensures=ens, while_bound=R + 3, workers=6,
